@@ -81,6 +81,11 @@ class OperatorResolver(metaclass=abc.ABCMeta):
             raise exc_for_token(token, f"Unknown operator '{symbol}'.")
         return token, self.operator_table[symbol]
 
-    # The operator table cache may not be pickleable, so let's drop it.
+    # The operator table cache may not be pickleable, so let's drop it (and only
+    # it: configuration such as feature flags must survive copying/pickling).
     def __getstate__(self) -> dict:
-        return {}
+        return {
+            key: value
+            for key, value in self.__dict__.items()
+            if key != "operator_table"
+        }
